@@ -338,30 +338,35 @@ func (c *compiler) compileType(y *Type, parent Leafable, isUnion bool) error {
 
 	if y.format == val.FmtEnum || y.format == val.FmtEnumList {
 		y.enum = make(val.EnumList, len(y.enums))
-		nextId := 0
+		// RFC7950 Sec 9.6.4.2 - without a value an enum gets zero if it is the first
+		// one, else one more than the highest value so far
+		highest := -1
 		for i, item := range y.enums {
-			if item.val > 0 {
-				nextId = item.val
-			} else {
-				item.val = nextId
+			if !item.valSet {
+				item.val = highest + 1
+				item.valSet = true
+			}
+			if i == 0 || item.val > highest {
+				highest = item.val
 			}
 			y.enum[i] = val.Enum{
-				Id:    nextId,
+				Id:    item.val,
 				Label: item.ident,
 			}
-			nextId++
 		}
 	}
 
 	if y.format == val.FmtBits || y.format == val.FmtBitsList {
-		nextPos := 0
-		for _, item := range y.bits {
-			if item.Position > 0 {
-				nextPos = item.Position
-			} else {
-				item.Position = nextPos
+		// RFC7950 Sec 9.7.4.2 - same rule as enum values
+		highest := -1
+		for i, item := range y.bits {
+			if !item.positionSet {
+				item.Position = highest + 1
+				item.positionSet = true
 			}
-			nextPos++
+			if i == 0 || item.Position > highest {
+				highest = item.Position
+			}
 		}
 	}
 
